@@ -47,7 +47,11 @@ RULE = ("seeded batches of ~10 sub-cases, each batch run in a fresh python under
         "constraint_from_external_definition: 2-3 temporary python files define the same function name with "
         "different bodies, one relation is built per file with the same expression text, the relation under test "
         "is a random one of them; one more relation from another file is created before every relation of the "
-        "chain is evaluated again (ground truth: the body written to that relation's own file). non-trivial = at least one slicing step or >= 2 variables; distinct = distinct "
+        "chain is evaluated again (ground truth: the body written to that relation's own file). Caller-owned "
+        "tables: ~35% of the matrix relations are built from a numpy ndarray (int8/16/32/64, float64) that the "
+        "driver afterwards overwrites (buf[...] = other table, buf *= 2, buf.fill) and reuses for a next relation, "
+        "then calls set_value_for_assignment on every relation of the chain, before the relation and the slices "
+        "taken BEFORE the rewrite are evaluated again (ground truth: the table at construction time). non-trivial = at least one slicing step or >= 2 variables; distinct = distinct "
         "sub-case JSON")
 MODELLED = ("all 8 relation kinds, construction (variable->argument mapping), the five call forms, slice "
             "and dimensions are modelled (M_RelKinds.v). Theorems (all orders of the variable list, all "
